@@ -1,8 +1,89 @@
+import DeapModel.Core.RealOps
 import Driver.Proto
-/-! Protocol handler for C10 (stub until the model is built). -/
+/-!
+Protocol handler for C10 (real-coded operators), `Float` instance of `Core/RealOps.lean`.
+
+Floats travel as bit patterns `f:<n>`; lists are comma separated, `-` = empty.  A bound / mu / sigma
+argument is a single float token (scalar) or `L<list>` (sequence, `L-` = empty sequence).
+The first individual is object 1 with strategy object 3, the second is object 2 with strategy 4.
+
+  blend   <alpha> <genes1> <genes2> <rs>
+  sbx     <eta>   <genes1> <genes2> <rs>
+  sbxb    <eta>   <genes1> <genes2> <low> <up> <rs>
+  esblend <alpha> <genes1> <strat1> <genes2> <strat2> <rs>
+  poly    <eta> <genes> <low> <up> <indpb> <rs>
+  gauss   <genes> <mu> <sigma> <indpb> <rs> <gs>
+  logn    <c> <indpb> <genes> <strat> <rs> <gs>
+
+Answers: `ok <ids> <lists…> <unused draws>` | `IndexError` | `ZeroDivisionError` | `bad-tape` | `bad-op`.
+-/
 namespace DriverC10
+open Proto RealOps
+
+def fl (l : List Float) : String := showList showFloat l
+
+def parseBound (s : String) : Option (Bound Float) :=
+  if s.startsWith "L" then (parseList parseFloat (s.drop 1).toString).map Bound.seq
+  else (parseFloat s).map Bound.scalar
+
+def fin {β : Type} (o : Outcome β) (f : β → String) : String :=
+  match o with
+  | .ok b => "ok " ++ f b
+  | .indexError => "IndexError"
+  | .zeroDivision => "ZeroDivisionError"
+  | .badTape => "bad-tape"
+
+def showPair (r : Ind Float × Ind Float × List Float) : String :=
+  s!"{r.1.oid},{r.2.1.oid} {fl r.1.genes} {fl r.2.1.genes} {r.2.2.length}"
 
 def handle : List String → String
+  | ["blend", al, g1, g2, rs] =>
+    match (do let a ← parseFloat al; let x ← parseList parseFloat g1; let y ← parseList parseFloat g2
+              let r ← parseList parseFloat rs; pure (a, x, y, r)) with
+    | some (a, x, y, r) => fin (cxBlend ⟨1, x, 0, []⟩ ⟨2, y, 0, []⟩ a r) showPair
+    | none => "bad-op"
+  | ["sbx", et, g1, g2, rs] =>
+    match (do let a ← parseFloat et; let x ← parseList parseFloat g1; let y ← parseList parseFloat g2
+              let r ← parseList parseFloat rs; pure (a, x, y, r)) with
+    | some (a, x, y, r) => fin (cxSimulatedBinary ⟨1, x, 0, []⟩ ⟨2, y, 0, []⟩ a r) showPair
+    | none => "bad-op"
+  | ["sbxb", et, g1, g2, lo, up, rs] =>
+    match (do let a ← parseFloat et; let x ← parseList parseFloat g1; let y ← parseList parseFloat g2
+              let l ← parseBound lo; let u ← parseBound up
+              let r ← parseList parseFloat rs; pure (a, x, y, l, u, r)) with
+    | some (a, x, y, l, u, r) => fin (cxSimulatedBinaryBounded ⟨1, x, 0, []⟩ ⟨2, y, 0, []⟩ a l u r) showPair
+    | none => "bad-op"
+  | ["esblend", al, g1, s1, g2, s2, rs] =>
+    match (do let a ← parseFloat al; let x ← parseList parseFloat g1; let sx ← parseList parseFloat s1
+              let y ← parseList parseFloat g2; let sy ← parseList parseFloat s2
+              let r ← parseList parseFloat rs; pure (a, x, sx, y, sy, r)) with
+    | some (a, x, sx, y, sy, r) =>
+      fin (cxESBlend ⟨1, x, 3, sx⟩ ⟨2, y, 4, sy⟩ a r) (fun o =>
+        s!"{o.1.oid},{o.1.soid},{o.2.1.oid},{o.2.1.soid} {fl o.1.genes} {fl o.1.strategy} {fl o.2.1.genes} {fl o.2.1.strategy} {o.2.2.length}")
+    | none => "bad-op"
+  | ["poly", et, g, lo, up, pb, rs] =>
+    match (do let a ← parseFloat et; let x ← parseList parseFloat g
+              let l ← parseBound lo; let u ← parseBound up; let p ← parseFloat pb
+              let r ← parseList parseFloat rs; pure (a, x, l, u, p, r)) with
+    | some (a, x, l, u, p, r) =>
+      fin (mutPolynomialBounded ⟨1, x, 0, []⟩ a l u p r) (fun o => s!"{o.1.oid} {fl o.1.genes} {o.2.length}")
+    | none => "bad-op"
+  | ["gauss", g, mu, sg, pb, rs, gs] =>
+    match (do let x ← parseList parseFloat g; let m ← parseBound mu; let s ← parseBound sg
+              let p ← parseFloat pb; let r ← parseList parseFloat rs; let z ← parseList parseFloat gs
+              pure (x, m, s, p, r, z)) with
+    | some (x, m, s, p, r, z) =>
+      fin (mutGaussian ⟨1, x, 0, []⟩ m s p r z)
+        (fun o => s!"{o.1.oid} {fl o.1.genes} {o.2.1.length} {o.2.2.length}")
+    | none => "bad-op"
+  | ["logn", c, pb, g, st, rs, gs] =>
+    match (do let cc ← parseFloat c; let p ← parseFloat pb; let x ← parseList parseFloat g
+              let s ← parseList parseFloat st; let r ← parseList parseFloat rs
+              let z ← parseList parseFloat gs; pure (cc, p, x, s, r, z)) with
+    | some (cc, p, x, s, r, z) =>
+      fin (mutESLogNormal ⟨1, x, 3, s⟩ cc p r z)
+        (fun o => s!"{o.1.oid},{o.1.soid} {fl o.1.genes} {fl o.1.strategy} {o.2.1.length} {o.2.2.length}")
+    | none => "bad-op"
   | _ => "bad-op"
 
 end DriverC10
